@@ -13,7 +13,7 @@ META = {
             "the harness: response i gets the command code and the encrypt request of command i.",
     "bounds": {"quick": "1- and 2-pair streams over 14 seed-rotated command codes + core", "thorough": "all command codes, 3-pair mixes"},
     "outside": "streams of more than 3 pairs; message boundaries other than the ones the messages' own size fields give",
-    "wall_budget_s": {"quick": 250, "thorough": 1500},
+    "wall_budget_s": {"quick": 250, "thorough": 840},
 }
 CORE = ("Startup", "GetRandom", "StartAuthSession")
 
